@@ -7,20 +7,25 @@ def _key(v):
     if not m:
         return (v[0], 99, 99, 99, 99)
     seq = m.group(2)
-    odd = v[1].count("x}") + v[1].count("n,") + v[1].count("cfg=missing")
+    odd = v[1].count("x}") + v[1].count("x1}") + v[1].count("nocfg}") + v[1].count("n,") + (0 if "attach=add(child,required)/top-down" in v[1] else 1)
     return (v[0], int(m.group(1)), 5 if seq.startswith("FRONTEND") else (0 if seq == "<none>" else seq.count(",") + 1), len(m.group(3)), odd)
 
 
 def main(tier, args):
     t0 = time.time()
+    # the repo sources under test are built with ASan+UBSan; the harness TU itself (model, oracle, enumeration) is not
+    # instrumented (half the run time) - malloc/free are intercepted process-wide, so a double delete or a use-after-free
+    # inside Module code is still reported
     exe = vf.build("C11/module", [vf.VERIF + "/checks/C11/harness.cpp"],
                    vf.module_sources("main/module.cpp", "util/variables.cpp"), mode="asan",
+                   harness_flags=["-fno-sanitize=all", "-O2"],
                    plain_srcs=[vf.VERIF + "/engine/sched/log_stub.cpp"])
-    # nmax nodes, depth of root-call sequences, cross-check (plain enumeration of all sequences) up to xn nodes
-    nmax, depth, xn, xd, dl, parts = (4, 4, 3, 4, 45, 16) if tier == "quick" else (5, 8, 3, 6, 1200, 64)
+    # nmax nodes, depth of root-call sequences, cross-check (plain enumeration of all sequences) up to xn nodes / xd calls,
+    # caps of the history counters in the state key, max number of non-ok modules in trees with exactly nmax nodes (0 = no limit)
+    nmax, depth, xn, xd, capf, capc, maxdev, dl, parts = (4, 8, 3, 3, 2, 1, 0, 240, 16) if tier == "quick" else (5, 10, 3, 5, 2, 1, 3, 1300, 64)
     res = vf.Result()
     log = open(vf.BUILD + "/C11/log.txt", "w")
-    cmds = [("part%02d" % k, [exe, "bfs", str(nmax), str(depth), str(k), str(parts), str(xn), str(xd)]) for k in range(parts)]
+    cmds = [("part%02d" % k, [exe, "bfs", str(nmax), str(depth), str(k), str(parts), str(xn), str(xd), str(capf), str(capc), str(maxdev)]) for k in range(parts)]
     if args.only:
         cmds = [c for c in cmds if c[0] == args.only]
     vf.run_procs(res, cmds, env={"VERIF_DEADLINE_S": str(dl)}, log=log)
@@ -33,16 +38,31 @@ def main(tier, args):
             keep.append(v)
     res.viols = keep
     vf.finish(PID, tier, res, t0,
-              rule="every ordered module tree with <=%d nodes x required/optional per child x named/unnamed per node x "
-                   "{ok,init-fails,start-fails} per node x config {filled,missing} (programs rejected by the real add() skipped), "
+              rule="every ordered module tree with <=%d nodes x required/optional per child x named/unnamed per node x hook-result mode per node "
+                   "{ok, init hook fails always, start hook fails always, init hook fails on its first call only, start hook fails on its first call only, "
+                   "own config section missing (named nodes)}%s x attach variant {add(child,required) top-down; addAs(child,name[,false]) from a temporary "
+                   "name with the default-argument overload for required children, sub-trees attached bottom-up; for trees <%d nodes also add(child[,false]) "
+                   "bottom-up and addAs top-down} (programs rejected by the real add() skipped; after every build a re-add of an attached child and a "
+                   "second module with a sibling's name must be refused, after every root call that leaves the root initialised an add() on it must be refused); "
                    "per program BFS over all root call sequences over {initialize,start,stop,cleanup} of length<=%d with canonical-state "
-                   "dedup (state_ of every node + per-node hook automaton, also of the optional-subtree-removed programs), every history "
-                   "finished by cleanup()+delete and by delete only, plus the run_in_frontend/run_in_backend call order; dedup "
-                   "cross-checked by plain enumeration of all sequences of length<=%d for trees <=%d nodes; oracle on the probe hook log: pre-order "
-                   "init/start per root call, stop/cleanup LIFO w.r.t. the start/init hooks they undo (exact reverse), per-module hook automaton, balance after cleanup+destroy, "
-                   "optional failing subtree leaves outside hooks identical to the program without it; ASan/UBSan" % (nmax, depth, xd, xn),
-              assumptions=["a module's hook result is fixed per program (ok / init hook fails / start hook fails), not per call",
-                           "balance is judged only for histories ending with an explicit cleanup() before destruction (DESIGN 1.7); "
-                           "the frontend order with failing initialize() (no cleanup() call) is judged for ordering only",
+                   "dedup (state_ of every node + per-node hook automaton + reference-model state + first-call counters + counters of failed initialize passes "
+                   "(cap %d), failed start passes (cap %d), completed cleanup passes (cap %d), so a rolled-back failure and a finished life cycle are states of their own), "
+                   "every history finished by cleanup()+delete and (unless every module is back in its initial state and the first run matched the reference) by delete only, "
+                   "plus the run_in_frontend/run_in_backend call order; dedup cross-checked by plain enumeration of all sequences of length<=%d for trees <=%d nodes; "
+                   "oracle on the probe hook log: exact equality of hook log and initialize()/start() return values with a recursive reference model of the statement "
+                   "(per-module state, required/optional, reverse-order roll-back inside the failing call), pre-order init/start per root call, stop/cleanup LIFO w.r.t. "
+                   "the start/init hooks they undo (exact reverse), per-module hook automaton, no cleanup hook under a started ancestor, balance after cleanup+destroy "
+                   "and after the frontend script (also on its initialize-failed path without cleanup()), balance of all non-root modules after destroy without cleanup, "
+                   "optional failing subtree leaves outside hooks identical to the reference of the program without it; ASan/UBSan on the Module code"
+                   % (nmax, (" (at most %d non-ok modules in trees with exactly %d nodes)" % (maxdev, nmax)) if maxdev else "", nmax, depth, capf, capf, capc, xd, xn),
+              assumptions=["a hook's result depends only on the module's mode and on whether it is that hook's first call on the module "
+                           "(fails always / fails the first time only); modes that fail on a later call only are not explored",
+                           "the config is written by the harness from the tree (one nested section per named module, as fillDefaultConfig() produces it), "
+                           "a missing section is modelled per node",
+                           "balance of the ROOT module is not judged when the tree is destroyed while initialised/running without cleanup() "
+                           "(~Module cannot dispatch the hooks of the object being destroyed, DESIGN 1.7); its descendants are judged",
+                           "the reference model performs the roll-back of a failed required child inside the failing initialize()/start() call, "
+                           "which is what the frontend flow (no cleanup() after a failed initialize()) needs for balance",
                            "Context is a fake whose accessors return nullptr: Module never dereferences it (module.cpp:30-32)",
+                           "the harness translation unit is compiled without sanitizer instrumentation (module.cpp and variables.cpp are instrumented)",
                            "hooks_distinct counter is summed over process partitions (upper bound of globally distinct hook logs)"])
